@@ -189,8 +189,8 @@ class C01(Prop):
     def strategy(self, tier):
         d = 3 if tier == "quick" else 4
         core = exprs(Opts(core=True, collide=False, red_absent=False, slices=True, max_depth=d, int_arith=False), ("real", ()))
-        full = exprs(Opts(max_depth=d), None)
-        reals = exprs(Opts(reals=True, max_depth=d), None)
+        full = exprs(Opts(max_depth=d, counts=True), None)
+        reals = exprs(Opts(reals=True, max_depth=d, counts=True), None)
         edge = exprs(Opts(edge=True, max_depth=d, ops_unary=("neg", "abs", "exp", "tanh", "sigmoid"), ops_binary=("add", "mul", "max", "min", "logaddexp", "sub")), ("real", ()))
         # point masses and Constant wrappers (reference semantics in vf/lang.py; Delta points are offered as evaluation points)
         pm = exprs(Opts(reals=True, max_depth=2, deltas=True, consts=True, max_names=3), ("real", ()))
